@@ -22,9 +22,10 @@ structure Conn.Ok (c : Conn) : Prop where
   snap : c.snapNo → c.closing = true ∧ (c.apc = .inited ∨ c.apc = .p1 ∨ c.apc = .ret)
   cbr : c.cbReg = false → c.apc = .accepted ∨ c.apc = .inited
   ghost : c.shutClosed = true → c.sawIdle = true
+  retc : c.apc = .ret → c.closing = true
 
 theorem Conn.Ok.live_open {c : Conn} (h : c.Ok) (hl : c.live) : c.fdOpen = true ∧ (c.td = .none ∨ c.td = .loaded true) := by
-  obtain ⟨h1, h2, h3, h4, h5, h6, h7⟩ := h
+  obtain ⟨h1, h2, h3, h4, h5, h6, h7, h8⟩ := h
   obtain ⟨ha, hu⟩ := hl
   have hs : ¬ c.snapNo := by
     intro hs; have := (h5 hs).2; rcases ha with ha | ha <;> simp [ha] at this
@@ -51,7 +52,7 @@ theorem stepConn_char {s s' : S} {i : Nat} {c : Conn} {a : Act}
       ((s' = s.setConn i c' ∧ (c'.live ↔ c.live)) ∨
        (s' = { (s.setConn i c') with map := mapSet s.map c.fd i } ∧ c'.live ∧ ¬ c.live ∧ c.apc = .p2 ∧ c.unt = false) ∨
        (s' = { (s.setConn i c') with map := mapDel s.map c.fd } ∧ ¬ c'.live ∧ c.td = .loaded true)) := by
-  obtain ⟨h1, h2, h3, h4, h5, h6, h7⟩ := hok
+  obtain ⟨h1, h2, h3, h4, h5, h6, h7, h8⟩ := hok
   cases a
   case aStore j =>
     simp only [stepConn, Cfg.fixed, Bool.true_and] at hs
@@ -96,6 +97,7 @@ structure Good (s : S) : Prop where
   trk : ∀ (i : Nat) (c : Conn), s.conns[i]? = some c → c.live → s.map c.fd = some i
   uniq : ∀ (i j : Nat) (c d : Conn), s.conns[i]? = some c → s.conns[j]? = some d → c.fdOpen = true → d.fdOpen = true → c.fd = d.fd → i = j
   lnc : s.sh.pastClose = true → s.lnOpen = false
+  lno : s.sh.pastClose = false → s.lnOpen = true
   rel : s.sh.pastQuit = true → s.stop.isSome = true ∨ ∃ e, s.sv = .returned e
   svr : s.sh ≠ .idle → s.sv ≠ .notStarted
   infl : s.sh.rangingPhase = true → s.active = 0 → ∀ (i : Nat) (c : Conn), s.conns[i]? = some c → c.inflight = false
@@ -174,6 +176,7 @@ theorem good_conn_gen {s : S} {i : Nat} {c c' : Conn} {m' : Nat → Option Nat} 
     · simp only [hji, hki, if_false] at hj hk
       exact h.uniq j k d e hj hk hdo heo hfe
   · exact h.lnc
+  · exact h.lno
   · exact h.rel
   · exact h.svr
   · intro hr ha j d hj
